@@ -5,10 +5,13 @@ KINDS = ['p', 'p', 'p', 'u', 'c']
 
 
 def gen_act(rng, nh, weights):
-    """weights: dict kind -> weight over none/switch/rswitch/quit/quitto/rquit/rother"""
+    """weights: dict kind -> weight over none/switch/rswitch/quit/quitto/rquit/rother and, for
+    processors only, lswitch/setclock/peek (direct calls of the running loop's public API)"""
     kinds = list(weights)
     k = rng.choices(kinds, [weights[x] for x in kinds])[0]
-    if k in ('switch', 'rswitch'):
+    if k == 'setclock':
+        return f'setclock {rng.randint(0, 1)}'
+    if k in ('switch', 'rswitch', 'lswitch'):
         flags = rng.choice([(0, 0), (0, 0), (1, 0), (0, 1), (1, 1)])
         return f'{k} {rng.randrange(nh)} {flags[0]} {flags[1]}'
     if k == 'quitto':
@@ -16,7 +19,8 @@ def gen_act(rng, nh, weights):
     return k
 
 
-FRAME_W = {'none': 10, 'switch': 5, 'rswitch': 1.5, 'quit': 1, 'quitto': 0.5, 'rquit': 1, 'rother': 0.7}
+FRAME_W = {'none': 10, 'switch': 5, 'rswitch': 1.5, 'quit': 1, 'quitto': 0.5, 'rquit': 1, 'rother': 0.7,
+           'lswitch': 2, 'setclock': 0.7, 'peek': 1.5}
 REACT_W = {'none': 2, 'switch': 4, 'rswitch': 1, 'quit': 1, 'quitto': 0.5, 'rquit': 1.5, 'rother': 1}
 
 
@@ -55,6 +59,9 @@ def gen_scenario(rng, frame_w=FRAME_W, react_p=0.35, max_handles=3, max_starts=3
     kind, reading, step = gen_clock(rng)
     if kind != 'f8' or rng.random() < 0.5:
         lines.append(f'clock {kind}')
+    # the second time function: same representation, its own readings
+    two_clocks = rng.random() < 0.5
+    alt = reading + rng.choice([-5, 3, 1000, 12345678901])
     for h in range(nh):
         ks = [rng.choice(KINDS) for _ in range(rng.randint(1, 3))]
         procs.append(ks)
@@ -74,20 +81,24 @@ def gen_scenario(rng, frame_w=FRAME_W, react_p=0.35, max_handles=3, max_starts=3
         nf = rng.randint(1, max_frames)
         for f in range(nf):
             reading += step()
+            alt += step()
             acts = [gen_act(rng, nh, frame_w) for _ in range(3)]
             if f == nf - 1 and rng.random() < 0.6:
                 acts[rng.randrange(3)] = rng.choice(['quit', 'rquit', 'rquit'])
-            lines.append(f'frame {reading} ' + ' ; '.join(acts))
+            lines.append(f'frame {reading}{"/%d" % alt if two_clocks else ""} ' + ' ; '.join(acts))
         if rng.random() < 0.15:
             lines.append(f'op switch {rng.randrange(nh)} {rng.randint(0, 1)} {rng.randint(0, 1)}')
     return lines
 
 
 def small_scope(react_acts=('none',)):
-    """Two handles, every switch kind / flag combination / target / cached-or-not, requested by a
-    plain processor, an on_update callback and a coroutine; then two more frames and a quit."""
+    """Two handles, every switch kind (switch(), raise SwitchWorld, loop.switch() called directly) /
+    flag combination / target / cached-or-not, requested by a plain processor, an on_update callback
+    and a coroutine; then more frames (one peeks at loop.current_world) and a quit."""
     for kind, pre, act, tgt, cc, cn, ra in itertools.product(
-            ['p', 'u', 'c'], [0, 1], ['switch', 'rswitch'], [0, 1], [0, 1], [0, 1], react_acts):
+            ['p', 'u', 'c'], [0, 1], ['switch', 'rswitch', 'lswitch'], [0, 1], [0, 1], [0, 1], react_acts):
+        if kind == 'u' and act == 'lswitch':
+            continue                     # direct API calls are scripted for processors only
         lines = [f'handle 0 procs=p,{kind},p load=1:7', 'handle 1 procs=p,p load=2:3,0:4']
         if pre:
             lines.append('op load 1')
@@ -101,7 +112,7 @@ def small_scope(react_acts=('none',)):
         if ra != 'none':
             lines.append(f'react 5 {ra}')
         lines += ['op start', 'frame 3 none ; none ; none', f'frame 5 none ; {a} ; none',
-                  'frame 6 none ; none ; none', 'frame 10 none ; none ; none',
+                  'frame 6 peek ; none ; none', 'frame 10 none ; none ; none',
                   'frame 11 switch 0 0 0 ; none', 'frame 12 none ; none', 'frame 14 rquit',
                   'op start', 'frame 20 none', 'frame 21 quit']
         yield lines
